@@ -109,6 +109,11 @@ func main() {
 		for f, b := range p.overlayIn {
 			fmt.Printf("// ===== %s\n%s\n", f, b)
 		}
+	case "checkall":
+		// every rule set on one loaded program (default configuration, no self-test, nothing
+		// written): used by the benign-change evaluation, where 20 separate loads per
+		// patch are the cost.  One line per property that reports: "Cxx: <first reports>".
+		os.Exit(cmdCheckAll(os.Args[2:]))
 	case "funcs":
 		// the vocabulary of known functions of a tree (default /repo): one printable name per line
 		repo := "/repo"
@@ -684,4 +689,65 @@ func cmdMutant(args []string) int {
 		others = append(others, v.Rule+"|"+v.Key)
 	}
 	return emit(mutantOutcome{Name: m.Name, Status: "missed", Detail: fmt.Sprintf("expected %s %q; other reports: %v", m.Rule, m.KeySub, others)})
+}
+
+func cmdCheckAll(args []string) int {
+	fs := flag.NewFlagSet("checkall", flag.ExitOnError)
+	repo := fs.String("repo", "/repo", "repository root")
+	verif := fs.String("verif", "/verif", "verification root")
+	fs.Parse(args)
+	knownFuncsFile = filepath.Join(*verif, "known_functions.txt")
+	known, err := loadKnown(filepath.Join(*verif, "known_findings.json"))
+	if err != nil {
+		fmt.Fprintln(os.Stderr, "galint:", err)
+		return 2
+	}
+	p, err := Load(*repo, BuildConfig{}, nil)
+	if err != nil {
+		fmt.Fprintln(os.Stderr, "galint:", err)
+		return 2
+	}
+	rc := 0
+	var ids []string
+	for id := range registry {
+		ids = append(ids, id)
+	}
+	sort.Strings(ids)
+	for _, id := range ids {
+		prop := registry[id]
+		// engines are rebuilt per property: a rule set may configure them
+		p.facts, p.intervals = nil, nil
+		ctx := NewCtx(prop.ID, p)
+		func() {
+			defer func() {
+				if r := recover(); r != nil {
+					ctx.Rule("INTERNAL", "-", "the checker must not fail", 0)
+					ctx.Unknown("INTERNAL", "panic", 0, "checker panic: %v", r)
+				}
+			}()
+			prop.Run(ctx)
+		}()
+		ctx.finish()
+		out := verdict(prop.ID, ctx.obls, known)
+		if len(out.violations) > 0 {
+			rc = 1
+			var parts []string
+			for i, ob := range out.violations {
+				if i >= 4 {
+					break
+				}
+				kind := "violated"
+				if ob.st == Undecided {
+					kind = "undecided"
+				}
+				d := fmt.Sprintf("%s %s %s at %s: %s", kind, ob.Rule, ob.Key, ob.Pos, firstLine(ob.Detail))
+				if len(d) > 260 {
+					d = d[:260]
+				}
+				parts = append(parts, d)
+			}
+			fmt.Printf("%s: %s|\n", prop.ID, strings.Join(parts, "|"))
+		}
+	}
+	return rc
 }
